@@ -568,6 +568,13 @@ def healthy_rf(r, tag=""):
     if r.random() < 0.25:
         spec["return"] = {"v": "fixed", "w": [{"k": 5}]}             # a fully static `return`
     a = "=locals.a" if "locals" in spec else "=inputs.n + 1"
+    if "locals" in spec and r.random() < 0.4:
+        # locals that no expression reads member-wise: unreferenced, or read only as the whole `locals` map
+        a = "=inputs.n + 1"
+        how = r.choice(["unreferenced", "whole-in-return", "whole-in-resource"])
+        aux["locals_use"] = how
+        if how == "whole-in-return":
+            spec["return"]["all"] = "=locals"
     if r.random() < 0.2:
         spec["resourceTemplateRef"] = {"name": f'="tmpl{tag}-" + inputs.s'}
         aux["template"] = {**GVK, "spec": {"x": 6, "list": [{"k": "str"}]}}
@@ -575,6 +582,8 @@ def healthy_rf(r, tag=""):
         spec["resource"] = ({"spec": {"x": a, "list": [{"k": "=inputs.s"}]}, "metadata": {"labels": {"l": "=inputs.s"}}}
                             if r.random() < 0.75 else
                             {"spec": {"x": 6, "list": [{"k": "str"}]}, "metadata": {"labels": {"l": "str"}}})
+        if aux.get("locals_use") == "whole-in-resource":
+            spec["resource"]["spec"]["all"] = "=locals"
     overlays = []
     if r.random() < 0.7:
         ov = {"overlay": {"spec": {"y": "=inputs.n", "deep": {"er": "=inputs.s"}}}}
@@ -734,6 +743,10 @@ def plant_wf(r, fns, wf, aux):
     d = {"site": f"step[{k}].{site}"}
     if site == "inputs":
         d["pos"], d["fail"] = plant_in_map(r, step["inputs"], "parent", block=step["inputs"])
+        if not ABSORBING[0] and r.random() < 0.4:
+            # a step that would be skipped anyway: the failing `inputs` expression still decides (it comes first)
+            step["skipIf"] = r.choice(["=!parent.flag", "=true", "=parent.n > 0"])
+            d["pos"] += "+skipIf-true"
     elif site == "skipIf":
         step["skipIf"], d["pos"], d["fail"] = plant_scalar(r, "parent")
     elif site == "forEach":
@@ -1092,6 +1105,12 @@ def complaints_one(case, obs):
     if obs.get("state_errtext") and not celpy_absorbs:
         return f"the published state contains the text of an evaluation error in place of data: {obs['state_errtext']!r}"
     if case["kind"] in ("vf", "rf"):
+        plant = case.get("plant") or {}
+        if (case.get("stream") == "real" and plant.get("site") == "locals" and out["c"] != "permFail"):
+            # the healthy preconditions pass, so `locals` is always reached; the planted sub-expression fails by construction
+            return (f"a failing sub-expression was planted in `locals` ({plant.get('pos')}, {plant.get('fail')}) but the outcome "
+                    f"is {out['c']} ({out.get('msg')!r}); `locals` evaluated: "
+                    f"{any(n.endswith('locals') for n, _ in obs['events'])}")
         if bad:
             if out["c"] != "permFail":
                 return f"the expression at {bad[0][0]} failed to evaluate but the outcome is {out['c']}"
